@@ -3,8 +3,17 @@
 Metamorphic run of every registered public algorithm on one graph in every documented container
 (read from the current signature annotation) x dtypes of equal value x CSR with unsorted indices,
 against the canonical sorted int CSR run. The theorem side (Props/C01.v) is the conversion model:
-container -> CSR keeps the denotation, and kernels that only test membership do not see row order."""
+container -> CSR keeps the denotation, and kernels that only test membership do not see row order.
+
+Second sentence (no call modifies its arguments): (1) run-time snapshots of the matrix and of every argument on each
+registered run, plus a family of CSR matrices with explicitly STORED ZEROS (what item assignment or a - b leave behind;
+only non-modification is demanded of it); (2) the static tie Gen/ArgMut.v (harness/translators/argmut.py, whole-program
+may-alias / may-mutate analysis over every public entry point) pinned by Props/C01.v, whose abstract analysis is proved
+sound in Proofs/ArgFrameProofs.v; (3) harness/workers/c01.py: probes of the NumPy / SciPy facts that analysis assumes,
+and direct snapshot calls of ~90 public entry points that are not in the registry."""
 import copy
+import os
+import re
 
 from .. import cases
 from ..compare import compare
@@ -17,6 +26,35 @@ DISCRETE = ('Louvain', 'Leiden', 'Propagation', 'PropagationClustering', 'Paris'
             'Spring', 'ForceAtlas', 'color_weisfeiler_lehman')
 CLASSIFIERS = ('DiffusionClassifier', 'PageRankClassifier', 'NNClassifier', 'Propagation')
 SKIP = ('KCenters',)   # use the global NumPy generator without any seed parameter: two runs differ by design
+GEN_FILES = ['ArgMut.v']   # parameters that may be modified in place, re-extracted from /repo on every run
+BY_DESIGN = ('(by design) svg_text', '(by design) get_dendrogram')   # reviewed entries of Props/C01.v that really write
+
+
+def _case_opts(rng, name, d, nr, nc, kind):
+    opts = cases.make_opts(rng, d, nr, nc, kind == 'bip')
+    if d['seeded']:
+        opts.setdefault('params', {})['random_state'] = 7
+        if base_name(name) in ('Louvain', 'Leiden', 'LouvainHierarchy', 'LouvainIteration', 'LouvainEmbedding'):
+            opts['params']['shuffle_nodes'] = rng.random() < 0.5
+    if name == 'GNNClassifier':
+        opts = cases.gnn_opts(rng, nr)
+    if name == 'get_dag':
+        opts['order'] = [rng.randint(-1, 3) for _ in range(nr)]
+    return opts
+
+
+def stored_zeros(rng, spec, kind):
+    """The same matrix with a few explicitly stored zero entries (symmetric pairs for symmetric kinds)."""
+    s2 = copy.deepcopy(spec)
+    nr, nc = s2['shape']
+    have = {(e[0], e[1]) for e in s2['coo']}
+    free = [(i, j) for i in range(nr) for j in range(nc) if (i, j) not in have and (j, i) not in have and (kind == 'bip' or i != j)]
+    rng.shuffle(free)
+    for (i, j) in free[:rng.randint(1, 3)]:
+        s2['coo'].append([i, j, 0])
+        if kind != 'bip' and nr == nc and (j, i) not in have:
+            s2['coo'].append([j, i, 0])
+    return s2
 
 
 def base_name(name):
@@ -124,14 +162,85 @@ def run(ctx, scratch):
                                       base={k: base['ok'].get(k) for k, _ in bad[:2]}, observed={k: out['ok'].get(k) for k, _ in bad[:2]})
                 if rep == 0 and len(ctx.samples) < 6:
                     ctx.sample(dict(name=name, family=fam, m=spec, opts=opts))
+        _second_sentence(ctx, impl, desc, rng, quick, nmax)
     ctx.rule = ('every registered public algorithm x graphs (square directed/undirected, connected symmetric, biadjacency) x '
                 'containers admitted by its current signature annotation (csr,csc,coo,lil,dense or csr only) x {int,float,bool} '
                 'of equal value x CSR with reversed (unsorted) rows; outputs compared with the canonical CSR run; arguments and '
-                'matrices snapshotted before/after; distinct by (algorithm, graph, arguments, variant); non-trivial = more than one stored entry')
+                'matrices snapshotted before/after; distinct by (algorithm, graph, arguments, variant); non-trivial = more than one stored entry; '
+                'plus, for non-modification only: the same runs on CSR with explicitly stored zeros, and direct snapshot calls of ~90 '
+                'unregistered public entry points (harness/workers/c01.py) on random square / rectangular graphs')
     ctx.assumptions = ['KCenters draws from the global NumPy generator without a seed parameter and is not compared; Spring/ForceAtlas are given explicit initial positions',
                        'ARPACK-backed outputs are not compared when the relevant spectrum has a near-tie or a near-zero value (margin guard, counted)',
                        'unsorted-CSR variant of algorithms that take discrete decisions on float sums only on unit weights',
-                       'non-modification is decided by run-time snapshots (aliasing is not expressible in the pure model)']
+                       'non-modification: run-time snapshots, and statically the may-alias / may-mutate analysis of harness/translators/argmut.py '
+                       '(rules and trusted base in its header: external functions not listed there are assumed pure; annotations are the documented '
+                       'types) whose abstract domain is proved sound on the small language of Model/ArgFrame.v; library facts it assumes are probed at run time']
+
+
+def _second_sentence(ctx, impl, desc, rng, quick, nmax):
+    # (a) library facts assumed by the static analysis
+    pr = impl.call('c01', 'probe', None, timeout=60)
+    ctx.traces += 1
+    if 'ok' not in pr:
+        ctx.notes.append('argmut probe did not run: %s' % _short(pr))
+        ctx.proof_broken.append('argmut: the NumPy / SciPy probe did not run (%s)' % _short(pr))
+    else:
+        bad = sorted(k for k, v in pr['ok'].items() if v is not True and not k.startswith('(info)'))
+        ctx.count('argmut_probe', ('probe',), nontrivial=True, n=len(pr['ok']))
+        ctx.extra['argmut_probe'] = pr['ok']
+        if bad:
+            ctx.proof_broken.append('argmut: library facts assumed by the static analysis do not hold here: ' + '; '.join(bad))
+    # (b) stored zeros: only non-modification is demanded (a stored zero is not an edge of "the same graph" for every kernel)
+    for name, d in sorted(desc.items()):
+        for rep in range(2 if quick else 6):
+            kind = cases.pick_kind(rng, d)
+            spec, nr, nc, fam = cases.make_matrix(rng, kind, nmax, weighted=rng.random() < 0.6)
+            opts = _case_opts(rng, name, d, nr, nc, kind)
+            s2 = stored_zeros(rng, spec, kind)
+            s2['dtype'] = 'int' if rep % 2 == 0 else 'float'
+            out = impl.call('registry', 'run', dict(name=name, m=s2, opts=opts, snapshot=True), timeout=30)
+            ctx.traces += 1
+            ctx.count(name + ':csr_explicit_zeros', (name, s2['shape'], s2['coo'], s2['dtype'], repr(sorted(opts.items(), key=str))),
+                      nontrivial=len(s2['coo']) > len(spec['coo']))
+            _mod(ctx, name, out, s2, opts, 'csr_explicit_zeros')
+    # (c) unregistered public entry points, called directly on caller-owned objects
+    for rep in range(6 if quick else 40):
+        spec, n, _, fam = cases.make_matrix(rng, 'sq', nmax, weighted=True)
+        bspec, nr, nc, _ = cases.make_matrix(rng, 'bip', nmax, weighted=True)
+        args = dict(m=spec, b=bspec, seed=rng.randrange(10 ** 6))
+        out = impl.call('c01', 'demos', args, timeout=240)
+        ctx.traces += 1
+        if 'ok' not in out:
+            ctx.notes.append('c01 demos did not complete: %s' % _short(out))
+            continue
+        seen = 0
+        for demo, changed in sorted(out['ok'].items()):
+            ctx.count('direct:' + demo, (demo, spec['coo'], bspec['coo'], args['seed']), nontrivial=len(spec['coo']) > 1)
+            if isinstance(changed, str):
+                continue                       # the call raised: not this property's business
+            if demo.startswith('(by design)'):
+                seen += bool(changed) if demo in BY_DESIGN else 0
+                if demo == '(by design) get_dendrogram[copy_tree]' and changed:
+                    ctx.violation('get_dendrogram', 'copy_tree=True still consumes the caller\'s tree', case=args, entry='get_dendrogram',
+                                  variant='copy_tree', kind='argument_modified')
+                continue
+            if changed:
+                ctx.violation(demo.split('[')[0], 'an argument passed by the caller was modified: %s' % changed, case=dict(demo=demo, **args),
+                              entry=demo, variant='direct_call', kind='argument_modified', arguments=changed)
+        if seen != len(BY_DESIGN):
+            ctx.notes.append('snapshot machinery did not see the by-design writes (%d of %d)' % (seen, len(BY_DESIGN)))
+            ctx.proof_broken.append('argmut: the snapshot oracle does not see the writes of svg_text / get_dendrogram any more (review Props/C01.v)')
+    # (d) what the static side currently says
+    try:
+        txt = open(os.path.join(os.environ.get('VERIF_COQ') or os.path.join(os.path.dirname(os.path.dirname(os.path.dirname(os.path.abspath(__file__)))), 'coq'),
+                                'Gen', 'ArgMut.v')).read()
+        ctx.extra['argmut'] = dict(
+            functions_scanned=int(re.search(r'n_functions_scanned : nat := (\d+)', txt).group(1)),
+            public_entry_points=int(re.search(r'n_public_entry_points : nat := (\d+)', txt).group(1)),
+            entries=len(re.findall(r'^  \("', txt.split('arg_mutations_undocumented_types')[0], re.M)),
+            entries_undocumented_types=len(re.findall(r'^  \("', txt.split('arg_mutations_undocumented_types :')[-1], re.M)))
+    except (OSError, AttributeError, ValueError):
+        pass
 
 
 def _mod(ctx, name, res, spec, opts, variant):
